@@ -242,7 +242,16 @@ func flagRead(e *Env, v ssa.Value, par string) (i, m, tested int64, why string) 
 	}
 	call, ok := v.(*ssa.Call)
 	if !ok {
-		return 0, 0, -1, "is not computed as (byte & mask) != 0 but as " + e.Term(v)
+		// a flag computed from more than one byte of the input: a bit of another byte decodes as this flag
+		t := e.Term(v)
+		idx := map[string]bool{}
+		for _, m := range regexp.MustCompile(regexp.QuoteMeta(par)+`\[(\d+)\]`).FindAllStringSubmatch(t, -1) {
+			idx[m[1]] = true
+		}
+		if len(idx) > 1 {
+			return 0, 0, -1, "VIOLATION: the flag is read from more than one byte of the input (" + t + "): a bit set in the other byte decodes as this flag and is written back into a different place — the byte form does not round-trip"
+		}
+		return 0, 0, -1, "is not computed as (byte & mask) != 0 but as " + t
 	}
 	sc := call.Call.StaticCallee()
 	if sc == nil || len(sc.Blocks) == 0 || sc.Pkg == nil || !strings.HasPrefix(sc.Pkg.Pkg.Path(), modPath) || e.depth >= 3 {
@@ -368,7 +377,12 @@ func c20r1(c *Ctx) {
 		case werr != "":
 			c.Fail(rule, "undecided", FuncName(to), construct, pos, "writer table cannot be extracted: "+werr)
 		case rerr != "":
-			c.Fail(rule, "undecided", FuncName(from), construct, c.P.Pos(from.Pos()), "reader table cannot be extracted: "+rerr)
+			if strings.Contains(rerr, "VIOLATION: ") {
+				c.FailX(Oblig{Rule: rule, Func: FuncName(from), Construct: construct, Pos: c.P.Pos(from.Pos()), Kind: "violation", Detail: strings.Replace(rerr, "VIOLATION: ", "", 1),
+					Expected: "each flag is read as (byte[i] & mask) != 0 from the one byte the writer puts it into"})
+			} else {
+				c.Fail(rule, "undecided", FuncName(from), construct, c.P.Pos(from.Pos()), "reader table cannot be extracted: "+rerr)
+			}
 		case len(w) == 0 || len(r) == 0:
 			c.Fail(rule, "undecided", FuncName(to), construct, pos, "no flag found in writer or reader")
 		case key(w) != key(r):
